@@ -7,11 +7,11 @@ package main
 
 import (
 	"fmt"
-	"sync"
 	"go/token"
 	"go/types"
 	"sort"
 	"strings"
+	"sync"
 
 	"golang.org/x/tools/go/ssa"
 )
@@ -50,10 +50,10 @@ func (a linComb) addScaled(b linComb, s int64) linComb {
 	return r
 }
 
-func (a linComb) plus(b linComb) linComb   { return a.addScaled(b, 1) }
-func (a linComb) minus(b linComb) linComb  { return a.addScaled(b, -1) }
+func (a linComb) plus(b linComb) linComb    { return a.addScaled(b, 1) }
+func (a linComb) minus(b linComb) linComb   { return a.addScaled(b, -1) }
 func (a linComb) plusConst(k int64) linComb { r := a.clone(); r.k += k; return r }
-func (a linComb) scale(s int64) linComb    { return newLin().addScaled(a, s) }
+func (a linComb) scale(s int64) linComb     { return newLin().addScaled(a, s) }
 
 func (a linComb) isConst() (int64, bool) { return a.k, len(a.terms) == 0 }
 
